@@ -1,4 +1,5 @@
 import ClientGoVerif.Model.VLog
+import ClientGoVerif.Model.ArtNode
 open CGV CGV.MemBuf
 
 /-! line-protocol driver of the C08 mechanism model (stateful; `reset` restores the initial state) -/
@@ -50,6 +51,7 @@ structure DS where
   cpViews : List View := []
   stageViews : List View := []           -- bottom first
   snapBase : List Item := []             -- values visible when stage 1 was opened
+  node : ArtNode.Node Nat := ArtNode.Node.empty   -- one inner node of the radix tree (n* ops)
 
 def viewOf (m : VLog) : View :=
   { items := sortItems (m.iterItems [] [] true), len := m.len, size := m.size }
@@ -189,6 +191,32 @@ partial def stepWords (d : DS) (w : List String) : DS × String :=
           (pruneCps { d with m := m', q := q' }, undoVerdict "revert" cv before (viewOf m'))
         else (d, "bad-cp")
       | _, _ => (d, "bad-cp")
+  | ["nreset"] => ({ d with node := ArtNode.Node.empty }, "ok")
+  | ["nadd", c, id] =>
+    match parseBytesTok c, id.toNat? with
+    | some [b], some i =>
+      if (d.node.findChild b).isSome then (d, "dup")
+      else
+        let n' := d.node.addChild b i
+        ({ d with node := n' }, s!"kind={n'.kind} num={n'.num % 256}")
+    | _, _ => (d, "bad-op")
+  | ["nfind", c] =>
+    match parseBytesTok c with
+    | some [b] => (d, match d.node.findChild b with | some i => toString i | none => "none")
+    | _ => (d, "bad-op")
+  | ["nrepl", c, id] =>
+    match parseBytesTok c, id.toNat? with
+    | some [b], some i =>
+      (match d.node.replaceChild b i with
+       | some n' => ({ d with node := n' }, "ok")
+       | none => (d, "refused"))
+    | _, _ => (d, "bad-op")
+  | ["nlist"] =>
+    let l := d.node.children
+    (d, l.foldl (fun acc p => acc ++ " " ++ toString p.2) s!"{l.length}:")
+  | ["nrlist"] =>
+    let l := d.node.children.reverse
+    (d, l.foldl (fun acc p => acc ++ " " ++ toString p.2) s!"{l.length}:")
   | ["view"] =>
     let v := viewOf d.m
     (d, s!"{showItems true v.items} len={v.len} size={v.size} dirty={d.m.dirty} stages={d.m.stages.length}")
